@@ -37,6 +37,7 @@ class Frame:
     dest: Optional[Tuple[object, Tuple]]  # (cell, proj) in caller's memory for the return value
     ret_bb: Optional[int]
     generics: Dict[str, str] = field(default_factory=dict)
+    keep: bool = False  # const items: locals have static lifetime
 
 
 class State:
@@ -57,7 +58,7 @@ class State:
         s = State()
         s.mem = dict(self.mem)
         s.pc = list(self.pc)
-        s.frames = [Frame(f.fn, f.fid, f.bb, f.dest, f.ret_bb, f.generics) for f in self.frames]
+        s.frames = [Frame(f.fn, f.fid, f.bb, f.dest, f.ret_bb, f.generics, f.keep) for f in self.frames]
         s.events = list(self.events)
         s.steps = self.steps
         s.ghost = dict(self.ghost)
@@ -481,6 +482,10 @@ class Executor:
                     cell, proj = v.cell, v.proj
                 elif isinstance(v, BoxV):
                     proj = proj + (("inner",),)
+                elif isinstance(v, (BV, BoolV, BigI, Adt, Tup, Opaque, Bytes, Str, VecV)):
+                    # read-only pseudo-reference: iterator summaries hand out element *values* where Rust hands out
+                    # `&T` (see summaries: iterators); dereferencing such a value is the identity
+                    pass
                 else:
                     raise Unsupported(f"deref of {type(v).__name__} at {place}")
             elif k == "field":
@@ -743,6 +748,9 @@ class Executor:
             it = self.int_ty(ty)
             if it:
                 return self.mk_int(int(m.group(2), 16), *it)
+        m = re.match(r"^ZeroSized: (\{closure@.*\})$", c)
+        if m:
+            return Closure(m.group(1), ())
         # zero-sized function item
         if c.endswith(">") or re.match(r"^[\w:<>{}@#\[\]., '&/-]+$", c):
             # named constant in one of the modules?
@@ -770,7 +778,7 @@ class Executor:
         sub = State()
         sub.mem = st.mem  # share: const evaluation allocates temp cells only
         self._fid += 1
-        fr = Frame(f, self._fid, 0, None, None)
+        fr = Frame(f, self._fid, 0, None, None, {}, True)
         sub.frames = [fr]
         outs = self.run_state(sub)
         if len(outs) != 1 or outs[0].kind != "return":
@@ -1050,8 +1058,9 @@ class Executor:
                 rv = st.mem.get(("L", fr.fid, 0), UNIT)
                 st.frames.pop()
                 # free locals
-                for key in [c for c in st.mem if c[0] == "L" and c[1] == fr.fid]:
-                    del st.mem[key]
+                if not fr.keep:
+                    for key in [c for c in st.mem if c[0] == "L" and c[1] == fr.fid]:
+                        del st.mem[key]
                 if len(st.frames) < base_depth or fr.dest is None and fr.ret_bb is None:
                     outs.append(Outcome("return", rv, st))
                     return
